@@ -360,6 +360,15 @@ func runProtocol(kc *kernelCtx, blocks []*Block, only string, want map[string]bo
 	if on("C07") {
 		pc.p6Panics(only)
 	}
+	if on("C12") {
+		pc.p3SpareCapacity(only)
+	}
+	if on("C09") || on("C18") {
+		pc.p1Helpers(only)
+	}
+	if on("C08") || on("C05") || on("C02") {
+		pc.p7NoTryLock(only)
+	}
 	if on("C04") || on("C18") || on("C05") || on("C16") {
 		pc.p8Frames(only)
 	}
